@@ -1826,11 +1826,17 @@ class VM:
         def set_fn(*args):
             # TypedArray.set(array, offset)
             source = args[0] if args else UNDEFINED
-            offset = int(to_number(args[1])) if len(args) > 1 else 0
+            offset = to_integer_or_infinity(self._to_number(args[1])) if len(args) > 1 else 0
+            if offset < 0:
+                raise JSRangeError("offset is out of bounds")
 
             if isinstance(source, (JSArray, JSTypedArray)):
-                for i in range(source.length):
-                    arr.set_index(offset + i, self._to_number(source.get_index(i)))
+                # read the source first: it may overlap the target's buffer
+                values = [source.get_index(i) for i in range(source.length)]
+                if offset + len(values) > arr.length:
+                    raise JSRangeError("offset is out of bounds")
+                for i, value in enumerate(values):
+                    arr.set_index(offset + i, self._to_number(value))
             return UNDEFINED
 
         methods = {
